@@ -100,29 +100,35 @@ def make_actor(table_path: str, op: Dict[str, Any], shared_table: Any = None, st
 # ---------------------------------------------------------------------------------------------------
 # independent reader (no datashard imports)
 # ---------------------------------------------------------------------------------------------------
-def read_table_independent(root: str) -> Dict[str, Any]:
-    """Pointer -> metadata JSON -> manifest lists -> manifests -> parquet rows, using json/fastavro/pyarrow only."""
+def read_table_independent(root: Any) -> Dict[str, Any]:
+    """Pointer -> metadata JSON -> manifest lists -> manifests -> parquet rows, using json/fastavro/pyarrow only.
+    `root` is a directory, or a function relpath -> bytes (object stores)."""
+    import io
+
     import fastavro
     import pyarrow.parquet as pq
-    hint = open(os.path.join(root, HINT), "rb").read().decode("utf-8").strip()
-    meta = json.load(open(os.path.join(root, "metadata", hint)))
+    if callable(root):
+        fetch = root
+    else:
+        def fetch(rel: str) -> bytes:
+            with open(os.path.join(root, rel), "rb") as f:
+                return f.read()
+    hint = fetch(HINT).decode("utf-8").strip()
+    meta = json.loads(fetch("metadata/" + hint))
     snaps = {}
     for s in meta["snapshots"]:
-        lp = os.path.join(root, s["manifest_list"].lstrip("/"))
-        with open(lp, "rb") as f:
-            manifests = list(fastavro.reader(f))
+        manifests = list(fastavro.reader(io.BytesIO(fetch(s["manifest_list"].lstrip("/")))))
         files = []
         for m in manifests:
-            with open(os.path.join(root, m["manifest_path"].lstrip("/")), "rb") as f:
-                for ent in fastavro.reader(f):
-                    files.append(ent["data_file"]["file_path"].lstrip("/"))
+            for ent in fastavro.reader(io.BytesIO(fetch(m["manifest_path"].lstrip("/")))):
+                files.append(ent["data_file"]["file_path"].lstrip("/"))
         snaps[s["snapshot_id"]] = {"files": sorted(set(files)), "parent": s.get("parent_snapshot_id"),
                                    "seq": s.get("sequence_number"), "ts": s["timestamp_ms"]}
     cur = meta["current_snapshot_id"]
     rows = []
     if cur is not None and cur != -1 and cur in snaps:
         for fp in snaps[cur]["files"]:
-            rows.extend(pq.read_table(os.path.join(root, fp)).to_pylist())
+            rows.extend(pq.read_table(io.BytesIO(fetch(fp))).to_pylist())
     return {"pointer": hint, "meta": meta, "snapshots": snaps, "current": cur, "rows": rows,
             "snapshot_order": [s["snapshot_id"] for s in meta["snapshots"]],
             "log_order": [e["snapshot_id"] for e in meta["snapshot_log"]]}
@@ -131,6 +137,9 @@ def read_table_independent(root: str) -> Dict[str, Any]:
 # ---------------------------------------------------------------------------------------------------
 # running a case
 # ---------------------------------------------------------------------------------------------------
+_S3_TEMPLATES: Dict[str, Dict[str, Any]] = {}
+
+
 class CaseResult:
     def __init__(self) -> None:
         self.log: List[dict] = []
@@ -154,30 +163,49 @@ def run_case(scratch: str, case: Dict[str, Any], chooser_factory: Callable[[S.Sc
     sc = S.Scheduler()
     sc.yield_filter = case.get("yield_filter", protocol_yield_filter)
     lock_mode = case.get("lock", "real")
-
-    def factory(tp: str) -> Any:
-        return S.instrument_backend(sc, LocalStorageBackend(tp), lock_mode=lock_mode)
-
-    schema = Schema(schema_id=1, fields=[{"id": 1, "name": "x", "type": "long", "required": False}])
+    backend_kind = case.get("backend", "local")          # local | s3cas | s3nocas
     clock = case.get("clock", "tick")     # tick: +1 ms per scheduler step; frozen: never advances; coarse: +1 ms every 7 steps
     nsnap = case.get("initial_snapshots", 2)
-    template = os.path.join(scratch, f"template-{nsnap}")
+    schema = Schema(schema_id=1, fields=[{"id": 1, "name": "x", "type": "long", "required": False}])
+    store = None
+    if backend_kind != "local":
+        from . import mems3
+        store = mems3.MemS3(sc.now_ms)
+
+        def factory(tp: str) -> Any:
+            return S.instrument_backend(sc, mems3.make_s3_backend(store, "tbl", conditional=(backend_kind == "s3cas")), lock_mode=lock_mode)
+        root = "tbl"
+        reader_root: Any = lambda rel: store.objects["tbl/" + rel]["body"]
+    else:
+        def factory(tp: str) -> Any:
+            return S.instrument_backend(sc, LocalStorageBackend(tp), lock_mode=lock_mode)
+        reader_root = root
+
+    template = os.path.join(scratch, f"template-{backend_kind}-{nsnap}")
     with S.patched(sc, factory, shared_rlock=True):
-        if not os.path.exists(template) or setup is not None:
-            base = template if setup is None else root
+        fresh = setup is not None or (backend_kind == "local" and not os.path.exists(template)) \
+            or (backend_kind != "local" and template not in _S3_TEMPLATES)
+        if fresh:
+            saved_mode, lock_mode = lock_mode, "grant_all" if backend_kind != "local" else lock_mode
+            base = root if (setup is not None or backend_kind != "local") else template
             t0 = datashard.create_table(base, schema)
             for i in range(nsnap):
                 sc.clock_ms += 10
                 t0.append_records([{"x": -(i + 1)}])
             if setup is not None:
                 setup(t0)
-        if setup is None:
+            lock_mode = saved_mode
+            if backend_kind != "local" and setup is None:
+                _S3_TEMPLATES[template] = {k: dict(v) for k, v in store.objects.items() if ".locks" not in k}
+        if backend_kind == "local" and setup is None:
             shutil.copytree(template, root)
+        elif backend_kind != "local" and setup is None:
+            store.objects = {k: dict(v) for k, v in _S3_TEMPLATES[template].items()}
         # frozen clock: every commit of the run happens in the same millisecond as the last setup commit
         sc.clock_ms = 1_700_000_000_000 + 10 * nsnap + (0 if clock == "frozen" else 10)
         sc.log.clear()
         t0 = datashard.load_table(root)
-        res.initial = read_table_independent(root)
+        res.initial = read_table_independent(reader_root)
         shared = t0 if case.get("topology", "separate") == "shared" else None
         ops = case["ops"]
         for i, op in enumerate(ops):
@@ -214,7 +242,7 @@ def run_case(scratch: str, case: Dict[str, Any], chooser_factory: Callable[[S.Sc
             else:
                 res.outcomes[name] = ("ok", str(a.result))
         try:
-            res.final = read_table_independent(root)
+            res.final = read_table_independent(reader_root)
         except Exception as e:      # unreadable final table is itself an oracle failure
             res.final = {"error": repr(e)[:300]}
     return res
@@ -227,13 +255,14 @@ class Nonconforming(Exception):
     pass
 
 
-def project(res: CaseResult, nactors: int) -> Tuple[List[Tuple[int, str]], Dict[str, int], List[str]]:
+def project(res: CaseResult, nactors: int, cas: bool = False) -> Tuple[List[Tuple[int, str]], Dict[str, int], List[str]]:
     """Returns (events as (actor index, Gallina evkind text)), metadata-file name -> vid, notes).
     Raises Nonconforming on a storage call the projection does not know."""
     vids: Dict[str, int] = {res.initial["pointer"]: 0}
     events: List[Tuple[int, str]] = []
     notes: List[str] = []
     pending_validate: Dict[str, int] = {}      # actor -> index into events of its open EValidate (verdict filled later)
+    validated: Dict[str, bool] = {}
     n_known = 0
     for idx, e in enumerate(res.log):
         a = e["actor"]
@@ -248,10 +277,19 @@ def project(res: CaseResult, nactors: int) -> Tuple[List[Tuple[int, str]], Dict[
             if name is None or name not in vids:
                 raise Nonconforming(f"pointer read returned unknown content {result!r} at log[{idx}]")
             v = vids[name]
-            if in_mm_commit and in_refresh:
+            if in_mm_commit and not validated.get(a):
+                # the first pointer read under the lock is the validation read (on CAS storage it must
+                # also be the read that yields the ETag used by the conditional flip)
+                if cas and op != "read_file_with_etag":
+                    raise Nonconforming(f"CAS storage: the validation read at log[{idx}] does not yield the pointer ETag "
+                                        f"(the ETag is taken by a later read, after validation)")
+                validated[a] = True
                 pending_validate[a] = len(events)
                 events.append((ai, f"EValidate {v} ?"))
             elif in_mm_commit:
+                if cas:
+                    raise Nonconforming(f"CAS storage: second pointer read under the lock at log[{idx}] ({op}): the ETag must "
+                                        f"come from the validation read")
                 notes.append("reread")            # filename lookup under the lock: no protocol effect (non-CAS)
             elif in_txcommit and in_refresh and not in_mm_commit:
                 events.append((ai, f"EBegin {v}"))
@@ -260,6 +298,7 @@ def project(res: CaseResult, nactors: int) -> Tuple[List[Tuple[int, str]], Dict[
         elif op == "LockTry":
             if not in_mm_commit:
                 raise Nonconforming(f"lock attempt outside MetadataManager.commit at log[{idx}]: {phase}")
+            validated[a] = False
             events.append((ai, f"ELockTry {'true' if result == 'ok' else 'false'}"))
         elif op == "write_file" and pcs == "meta":
             if not in_mm_commit:
